@@ -164,14 +164,16 @@ Definition actualise (h : heap) (g : graph) (old new : ref) : res heap :=
   loop_nodes (repoint old new) (node_children h g old) h.
 
 (* sort_nodes: only with a single childless member and no cycle.
-   graph_has_cycle looks parents up in a dictionary of the members' uids: KeyError when a
-   member has a parent that is not a member *)
+   graph_has_cycle (anchored in C12) is modelled by its meaning on parent-closed graphs; on a
+   graph that is not parent-closed (its uid dictionary lookup may raise KeyError or may find a
+   cycle first) the model declines to predict.  Inside the domain of the theorems the graph is
+   parent-closed at this point (add_node has just run). *)
 Definition closed_b (h : heap) (g : graph) : bool :=
   forallb (fun r => forallb (fun p => memb p g) (pars h r)) g.
 
 Definition sort_nodes (h : heap) (g : graph) : res graph :=
   match root_nodes h g with
-  | [r] => if negb (closed_b h g) then Raise KeyError
+  | [r] => if negb (closed_b h g) then Raise Unmodelled
            else if has_cycle h g then Ok g else hierarchy h r
   | _ => Ok g
   end.
